@@ -87,7 +87,7 @@ def open_transport(cfg: dict[str, Any], protocol: type, impl: Any, **server_kw: 
         conn.extras["serve_errors"] = errors
         conn.extras["serve_thread"] = th
         try:
-            with RpcConnection(protocol, ct, on_log=on_log) as proxy:
+            with RpcConnection(protocol, ct, on_log=on_log, **cfg.get("client_kw", {})) as proxy:
                 conn.proxy = proxy
                 yield conn
         finally:
@@ -144,7 +144,7 @@ def open_transport(cfg: dict[str, Any], protocol: type, impl: Any, **server_kw: 
                 **cfg.get("app_kw", {}),
             )
         conn.extras["client"] = client
-        with http_connect(protocol, client=client, on_log=on_log, compression_level=level) as proxy:
+        with http_connect(protocol, client=client, on_log=on_log, compression_level=level, **cfg.get("client_kw", {})) as proxy:
             conn.proxy = proxy
             yield conn
         return
